@@ -559,6 +559,18 @@ func checkWrap(c wrapCase) *vlib.Failure {
 			}
 		}
 	}
+	// a sequence of Phred scores keeps their error probabilities whatever encoding it is written
+	// in later on, the Solexa encoding included
+	for _, enc := range []alphabet.Encoding{alphabet.Solexa, alphabet.None, e} {
+		ls.SetEncoding(enc)
+		for i, sc := range c.Scores {
+			pos := c.Offset + i
+			if want := math.Pow(10, -float64(sc)/10); !relClose(ls.EAt(pos), want, 1e-12) || ls.At(pos).Q != alphabet.Qphred(sc) {
+				return vlib.Failf("wrap-eat", "linear.QSeq under the encoding %s: EAt(%d) = %g, score %d; the Phred score %d means %g", encNames[enc], pos, ls.EAt(pos), ls.At(pos).Q, sc, want)
+			}
+		}
+	}
+	ls.SetEncoding(e2)
 	pos := c.Offset + c.SetPos
 	q.SetE(pos, p)
 	ls.SetE(pos, p)
